@@ -209,15 +209,15 @@ var mpuModel = porcupine.Model{
 }
 
 type history struct {
-	seq    int64
-	parts  map[string][]porcupine.Operation // partition -> ops
-	desc   map[string][]string
-	bodies map[string][]byte // md5 -> bytes of every body a client ever sent or the server assembled
-	verOf  map[string]string // version id -> md5 of the put that got it
-	verKey map[string]string // version id -> bucket/key
-	ids    []string
-	delVer map[string]bool // version ids some client has started to delete
-	recycles []*recycle   // bucket delete+re-create operations (the bucket may be absent while one is in flight)
+	seq      int64
+	parts    map[string][]porcupine.Operation // partition -> ops
+	desc     map[string][]string
+	bodies   map[string][]byte // md5 -> bytes of every body a client ever sent or the server assembled
+	verOf    map[string]string // version id -> md5 of the put that got it
+	verKey   map[string]string // version id -> bucket/key
+	ids      []string
+	delVer   map[string]bool // version ids some client has started to delete
+	recycles []*recycle      // bucket delete+re-create operations (the bucket may be absent while one is in flight)
 }
 
 type recycle struct{ call, ret int64 }
@@ -291,7 +291,9 @@ func (r *Run) checkReadIntegrity(resp *Resp, head bool, what string) (val string
 	return sum
 }
 
-func (r *Run) altETagOK(et, sum string) bool { return r.hist.bodies[sum] != nil && strings.Contains(et, "-") }
+func (r *Run) altETagOK(et, sum string) bool {
+	return r.hist.bodies[sum] != nil && strings.Contains(et, "-")
+}
 
 func (r *Run) execLin(ci, oi int, op *Op) {
 	h := r.hist
